@@ -58,7 +58,8 @@ Sliced(c) ==
   LET ms == Done(Runs(c, "main"))  us == Done(Runs(c, "nolimit")) IN
   \A x \in 1..Len(ms) : \A y \in 1..Len(us) :
      (ms[x].mode = us[y].mode /\ ms[x].bs = us[y].bs /\ ms[x].cache = us[y].cache) =>
-        (IF c.stmt.order = <<>> THEN ms[x].rows = Take(us[y].rows, c.stmt.lim.s, c.stmt.lim.n)
+        (IF ~c.stmt.lim.has THEN ms[x].rows = us[y].rows
+         ELSE IF c.stmt.order = <<>> THEN ms[x].rows = Take(us[y].rows, c.stmt.lim.s, c.stmt.lim.n)
          ELSE IF ~Comparable(us[y].rows, c.stmt.order) THEN TRUE
          ELSE ValidSlice(ms[x].rows, us[y].rows, c.stmt.order, c.stmt.lim.s, c.stmt.lim.n))
 
